@@ -17,6 +17,8 @@ func init() {
 		ruleDef{"C18.R2", c18r2},
 		ruleDef{"C18.R3", c18r3},
 		ruleDef{"C18.R5", c18r5},
+		// every header block the server writes comes out of the connection's encoder, as upstream writes it
+		ruleDef{"C18.R6", func(r *R) { forkSiblingRule(r, "C18.R6", "write.go", "server.go", "frame.go") }},
 	)
 	wantRefs("C18")
 }
